@@ -134,6 +134,18 @@ class Gen:
             return "for i in 1 to 2 loop %s = %s; if i == 1 then continue; end if; break; end loop;" % (v, "%s") % text if False else "%s = %s; %s = %s;" % (v, text, v, text2)
         tb = r.choice(self.tabs)
         if isinstance(m.env.get(tb), list) and m.env[tb]:
+            same = [v for v in lv if m.env[v][1] == m.env[tb][0][1]]
+            kk = r.random()
+            if kk < 0.35 and same:
+                # the iterator *is* the element: assigning a variable to it stores another reference to the variable's object
+                s = r.choice(same); m.env[tb] = [m.env[s]] * len(m.env[tb])
+                return "forall e in %s loop e = %s; end loop;" % (tb, s)
+            if kk < 0.5:
+                first = m.env[tb][0]; m.env[tb] = [first] * len(m.env[tb])
+                return "forall e in %s loop e = %s.at(0); end loop;" % (tb, tb)
+            if kk < 0.6 and isinstance(m.env.get("r"), list) and m.env["r"][0][1] == m.env[tb][0][1]:
+                m.env[tb] = [m.env["r"][0]] * len(m.env[tb])
+                return "forall e in %s loop e = r@1; end loop;" % tb
             return "forall e in %s loop z = e.ping(); end loop;" % tb
         return "nop;"
 
@@ -183,9 +195,23 @@ class Sh:
         for i, (text, reach, ptext, pexp) in enumerate(steps):
             ops += ["vmodmark", "parse A S%d %s" % (i, hx(text)), "run A S%d 20000" % i, "vmodmark", "parse A Q%d %s" % (i, hx(ptext)), "run A Q%d 20000" % i]
         # release sequence
-        rel = r.choice(["free-ctx-first", "free-progs-first", "purge-then-free", "clone-then-free-original", "clone-run-free"])
+        rel = r.choice(["free-ctx-first", "free-progs-first", "purge-then-free", "clone-then-free-original", "clone-run-free", "clone-read-free"])
+        if rel == "clone-read-free" and not g.live_vars(): rel = "clone-then-free-original"
         ops.append("vmodmark")
-        if rel == "clone-then-free-original": ops += ["clone A B", "free A", "vmodmark", "parse B QB %s" % hx(steps[-1][2]), "run B QB 20000", "free B"]
+        if rel == "clone-read-free":
+            # the clone only READS the variables it inherited (plain copies into other variables), then every reference is probed in the
+            # clone and in the original: reading must not consume the inherited variable
+            lv = g.live_vars(); s1 = r.choice(lv); s2 = r.choice(lv)
+            reader = "c = %s; d = %s;" % (s1, s2)
+            saved = dict(g.m.env)
+            g.m.env["c"] = g.m.env[s1]
+            g.m.env["d"] = g.m.env[s2]        # sequential: s2 may be c
+            ptb, pexp_b = g.pings()
+            g.m.env = saved
+            ops += ["clone A B", "parse B RB %s" % hx(reader), "run B RB 100", "vmodmark", "parse B QB %s" % hx(ptb), "run B QB 20000", "vmodmark",
+                    "parse A QA %s" % hx(steps[-1][2]), "run A QA 20000", "free B", "free A"]
+        if rel == "clone-read-free": pass
+        elif rel == "clone-then-free-original": ops += ["clone A B", "free A", "vmodmark", "parse B QB %s" % hx(steps[-1][2]), "run B QB 20000", "free B"]
         elif rel == "clone-run-free": ops += ["clone A B", "parse B QB %s" % hx("a = null; b = null; t = null;"), "run B QB 100", "vmodmark", "parse A QA %s" % hx(steps[-1][2]), "run A QA 20000", "free B", "free A"]
         elif rel == "purge-then-free": ops += ["purge A", "free A"]
         elif rel == "free-progs-first":
@@ -253,6 +279,18 @@ class Sh:
             want = [(mod, idof[(mod, ser)]) for mod, ser in pexp]
             if got != want:
                 self.viol("wrong-receiver", "after `%s` the probes reached %s, the model expects %s" % (text, got[:6], want[:6]), wit); return
+        if rel == "clone-read-free":
+            # phases after the statements: [release: clone + reader][probes in the clone][probes in the original + frees]
+            R = 1 + 2 * len(steps)
+            for who, ph, pexp in (("clone", R + 1, pexp_b), ("original", R + 2, steps[-1][3])):
+                got = []
+                for l in phases[ph] if ph < len(phases) else []:
+                    f = l.split()
+                    if f[0] == "M" and f[3].startswith("ping"): got.append((f[1], int(f[2])))
+                want = [(mod, idof[(mod, ser)]) for mod, ser in pexp]
+                if got != want:
+                    self.viol("clone-read|wrong-receiver", "after the clone ran `%s` (plain reads of inherited variables) the probes in the %s reached %s, the model expects %s" % (reader, who, got[:6], want[:6]), wit); return
+            bump(self.res, "clone_read_scenarios")
         # final balance
         for mod in ("vmod", "vmod2"):
             for oid in created[mod]:
